@@ -48,7 +48,8 @@ Definition corr_b (c : case) : bool :=
 (* ---------- the property on the outputs ---------- *)
 (* a full 32-byte big-endian ABI word starting at index i (0 if out of range) *)
 Definition word_at (p : list Z) (i : Z) : Z :=
-  fold_left (fun acc x => acc * 256 + x) (firstn 32 (skipn (Z.to_nat i) p)) 0.
+  if (i <? 0) || (Z.of_nat (length p) <? i) then 0     (* guard: never build a huge unary nat *)
+  else fold_left (fun acc x => acc * 256 + x) (firstn 32 (skipn (Z.to_nat i) p)) 0.
 
 Definition oracle_b (c : case) : bool :=
   match c with
@@ -98,7 +99,7 @@ Definition oracle_b (c : case) : bool :=
           && (p_ts o =? f_obs f)
           (* market status byte *)
           && (p_status o =? (if v =? 8 then (if f_status f =? 0 then 1 else if f_status f =? 1 then 6 else 3)
-                             else if v =? 11 then f_status f + 2 else 0))
+                             else if v =? 11 then f_status f + 1 else 0))
           (* last update difference in whole seconds, rounded up; tracking flags *)
           && (if timed then (p_flags o =? 7) && (f_last f <? obs_ns + 1000000000)
                             && (p_lud o =? (if f_last f <=? obs_ns then (obs_ns - f_last f + 999999999) / 1000000000 else 0))
@@ -107,7 +108,7 @@ Definition oracle_b (c : case) : bool :=
       | Some (Err 2) => (0 <=? price) && (bid <? 0)
       | Some (Err 3) => (0 <=? price) && (0 <=? bid) && (ask <? 0)
       | Some (Err 4) => (0 <=? price) && (0 <=? bid) && (0 <=? ask) && (ask <? price)
-      | Some (Err 5) => (0 <=? bid) && (price <=? ask) && (price <? bid)
+      | Some (Err 5) => (0 <=? price) && (0 <=? bid) && (price <=? ask) && (price <? bid)
       | Some (Err 6) => (0 <=? bid) && (bid <=? price) && (price <=? ask) && ((2 ^ 128 - 1) * 10 ^ 18 <? ask)
       | Some (Err 8) => timed && (obs_ns + 1000000000 <=? f_last f)
       | Some (Err 101) => negb status_ok || (2 ^ 192 <=? Z.abs price) || (2 ^ 192 <=? Z.abs bid) || (2 ^ 192 <=? Z.abs ask)
@@ -119,6 +120,7 @@ Definition oracle_b (c : case) : bool :=
 (* Known finding class 1 (AbiWordHighBytesIgnored): the offset word or the length word of the payload
    has non-zero high 24 bytes; the code reads only the low 8 bytes and returns the slice those describe. *)
 Definition low8 (p : list Z) (i : Z) : Z :=
+  if (i <? 0) || (Z.of_nat (length p) <? i) then 0 else
   fold_left (fun acc x => acc * 256 + x) (firstn 8 (skipn (Z.to_nat (i + 24)) p)) 0.
 Definition known_b (c : case) : Z :=
   match c with
